@@ -86,7 +86,8 @@ func (fc *FnCtx) binop(in *ssa.BinOp) Val {
 	if x.K == KStr {
 		switch in.Op {
 		case token.ADD:
-			r := sc.fresh("concat", "Str")
+			sc.declareFun("strcat", []string{"Str", "Str"}, "Str")
+			r := sc.define("concat", "Str", app("strcat", x.S, y.S))
 			fc.assume(eq(app("slen", r), app("+", app("slen", x.S), app("slen", y.S))))
 			fc.assume(fmt.Sprintf("(forall ((i Int)) (! (= (sat %s i) (ite (< i (slen %s)) (sat %s i) (sat %s (- i (slen %s))))) :pattern ((sat %s i))))", r, x.S, x.S, y.S, x.S, r))
 			return Val{K: KStr, T: T, S: r}
